@@ -505,6 +505,13 @@ class StmtMixin:
                 self.bodies.append((cname + '__stub', f'#ifdef CXX_STUB_{cname}\n{sig}\n{stub}#endif\n'))
             return info
         info['has_body'] = True
+        if self.spec.options.get('ast_errors') == 'tolerate':
+            def no_errors(n):
+                if n.get('containsErrors') or n.get('kind') == 'RecoveryExpr':
+                    raise LoweringError(f'{cname}: clang reported an error inside this function (error-recovery node in its AST)')
+                for c in n.get('inner', []):
+                    no_errors(c)
+            no_errors(decl)
         saved = self.cur
         self.cur = info
         for p, pt, pname in plist:
